@@ -17,13 +17,15 @@ ParT == << [fn |-> 3, fd |-> 1000, prec |-> 3, maxTicks |-> 3, pairFee |-> 50, p
            [fn |-> 1, fd |-> 10, prec |-> 3, maxTicks |-> 4, pairFee |-> 30, poolFee |-> 40, minDep |-> 500, maxLife |-> 3600, batch |-> 2, maxPools |-> 3] >>
 St0 == [h |-> 2, t |-> 6,
         bal |-> [a \in Accts |-> [d \in Denoms |-> IF a \in MUsers /\ d \in Assets THEN 100000 ELSE 0]],
-        pairs |-> {[app |-> MApp, id |-> 1, base |-> "uaa", quote |-> "ubb", batch |-> 1, lastOid |-> 0, lp |-> 0]},
+        pairs |-> {[app |-> MApp, id |-> 1, base |-> "uaa", quote |-> "ubb", batch |-> 1, lastOid |-> 0, lp |-> 0]}
+                  \cup (IF Scope = "pairs" THEN {[app |-> MApp, id |-> 2, base |-> "ubb", quote |-> "ucc", batch |-> 1, lastOid |-> 0, lp |-> 0]} ELSE {}),
         pools |-> {}, reqs |-> {}, orders |-> {}, qf |-> {}, af |-> {}, mmx |-> {},
-        lastPair |-> [i \in 1..2 |-> IF i = MApp THEN 1 ELSE 0], lastPool |-> <<0, 0>>, par |-> ParT]
+        lastPair |-> [i \in 1..2 |-> IF i = MApp THEN (IF Scope = "pairs" THEN 2 ELSE 1) ELSE 0], lastPool |-> <<0, 0>>, par |-> ParT]
 
 (* the model's account / denom universe (overrides Accts / Denoms of Liquidity.tla in the cfg: smaller states) *)
 MCAccts  == MUsers \cup {Gesc, Mod, DustT[MApp], FcT[MApp], EscT[MApp][1], FeeT[MApp][1], ResT[MApp][1]}
-MCDenoms == {"uaa", "ubb", FeeDenom, PcdT[MApp][1]}
+            \cup (IF Scope = "pairs" THEN {EscT[MApp][2], FeeT[MApp][2]} ELSE {})
+MCDenoms == {"uaa", "ubb", FeeDenom, PcdT[MApp][1]} \cup (IF Scope = "pairs" THEN {"ucc"} ELSE {})
 
 A(an, args) == [a |-> an, args |-> args]
 OrderActs ==
@@ -43,8 +45,14 @@ PoolActs ==
   \cup {A("Unfarm", [u |-> u, app |-> MApp, pool |-> 1, amt |-> 300]) : u \in MUsers}
   \cup {A("DepositAndFarm", [u |-> u, app |-> MApp, pool |-> 1, x |-> 1000, y |-> 1000]) : u \in MUsers}
   \cup {A("UnfarmAndWithdraw", [u |-> u, app |-> MApp, pool |-> 1, amt |-> 400]) : u \in MUsers}
+(* Scope "pairs": two pairs of one app, orders of mixed batch ages, cancel / cancel-all over named and all pairs *)
+PairActs ==
+  {A("LimitOrder", [u |-> u, app |-> MApp, pair |-> p, dir |-> d, price |-> IF p = 1 THEN 10100 ELSE 20200, amt |-> 150,
+                    offer |-> IF d = "B" THEN 400 ELSE 200, life |-> 3600]) : u \in MUsers, p \in {1, 2}, d \in {"S", "B"}}
+  \cup {A("CancelAll", [u |-> u, app |-> MApp, pairs |-> ps]) : u \in MUsers, ps \in {<<>>, <<1>>, <<2>>, <<2, 1>>}}
+  \cup {A("CancelOrder", [u |-> u, app |-> MApp, pair |-> p, id |-> 1]) : u \in MUsers, p \in {1, 2}}
 BlockActs == {A("EndBlock", [dt |-> 0])} \cup {A("BeginBlock", [dt |-> d]) : d \in (IF Scope = "pools" THEN {6, 90000} ELSE {6, 4000})}
-Alphabet == (IF Scope = "pools" THEN PoolActs ELSE OrderActs) \cup BlockActs
+Alphabet == (IF Scope = "pools" THEN PoolActs ELSE IF Scope = "pairs" THEN PairActs ELSE OrderActs) \cup BlockActs
 
 ASSUME Emit => PrintT(<<"T", ToJson([app |-> MApp, scope |-> Scope, acts |-> Alphabet])>>)
 
@@ -110,8 +118,9 @@ Step(s, act, c) ==                                            \* c: matching cho
 
 StepOK(s, s2, act) ==
   /\ C04SupplyStep(s, s2)
-  /\ \A u \in MUsers : \A d \in {"uaa", "ubb"} :
+  /\ \A u \in MUsers : \A d \in {"uaa", "ubb", "ucc"} \cap Denoms :
         ~ReqTouched(s, s2, u) /\ ~PoolAct(act.a, act.args, u) => s2.bal[u][d] - s.bal[u][d] = C07OwnerFlow(s, s2, u, d)
+  /\ (act.a = "CancelAll" => C07CancelAllEnds(s, s2, act.args))
   /\ (act.a \in {"CancelMM", "MMOrder"} =>
         \A o \in s.orders : o.app = act.args.app /\ o.pair = act.args.pair /\ o.owner = act.args.u /\ o.typ = "MM" /\ Live(o)
                             => OrderOf(s2, o.app, o.pair, o.id).status = "X")
@@ -122,7 +131,7 @@ Next == \E act \in Alphabet :
              LET r == Step(st, act, c) IN
              /\ r.ok
              /\ (ph = "end" <=> act.a = "BeginBlock")
-             /\ (act.a \in {"LimitOrder", "MarketOrder"} => PairOf(st, MApp, 1).lastOid < MaxOid)
+             /\ (act.a \in {"LimitOrder", "MarketOrder"} => PairOf(st, MApp, act.args.pair).lastOid < MaxOid)
              /\ (act.a = "MMOrder" => MMMax > 0 /\ PairOf(st, MApp, 1).lastOid <= MMMax /\ Cardinality({o \in st.orders : o.typ = "MM"}) <= 4)
              /\ (act.a \in {"Deposit", "DepositAndFarm"} => ~HasPool(st, MApp, 1) \/ PoolOf(st, MApp, 1).lastDep < MaxReq)
              /\ (act.a \in {"Withdraw", "UnfarmAndWithdraw"} => ~HasPool(st, MApp, 1) \/ PoolOf(st, MApp, 1).lastWd < MaxReq)
